@@ -58,7 +58,7 @@ def run(ctx):
     # the native cases are also evaluated on the transcription of _fjcore.c (Model/EngNative.v), whose refinement to
     # the machine definition is proved in Properties/C01_native.v: this ties the transcription itself to the C code
     ncases = [(c, r) for c, r in zip(cases, results) if c['engine'] == 'native']
-    ncases = ncases[:ctx.n(700, 20000)]
+    ncases = ncases[:ctx.n(700, 6000)]
     nativecamp.compare_native(ctx, [c for c, _ in ncases], [r for _, r in ncases], name='c01native')
     ctx.coverage['rule'] = ('generated loadable images (random ops incl. unaligned/self-modifying/IO-window/segment-edge, and '
                             'structured chains) x input bytes x {featured, fast, native(rebuilt from _fjcore.c)}; '
